@@ -126,6 +126,12 @@ pub assume_specification[ std::ffi::OsStr::is_empty ](s: &std::ffi::OsStr) -> (r
 /// `process::exit` never returns
 pub assume_specification[ std::process::exit ](code: i32) -> !;
 
+/// ASSUMPTION: `String -> PathBuf` conversion keeps the text
+pub axiom fn axiom_string_into_pathbuf_obeys()
+    ensures <String as vstd::std_specs::convert::IntoSpec<std::path::PathBuf>>::obeys_into_spec();
+pub broadcast axiom fn axiom_string_into_pathbuf(s: String)
+    ensures pathbuf_str(#[trigger] <String as vstd::std_specs::convert::IntoSpec<std::path::PathBuf>>::into_spec(s)) == s@;
+
 pub assume_specification[ std::path::Path::to_path_buf ](p: &std::path::Path) -> (r: std::path::PathBuf)
     ensures pathbuf_str(r) == path_str(p);
 
@@ -922,6 +928,69 @@ pub open spec fn listen_c05(evs: Seq<SEv>, cur: Option<(PktV, std::net::SocketAd
     cur is None ==> evs.len() == 0
 }
 
+// ---- command line configuration (C17) -------------------------------------------------------------
+
+/// mathematical view of `Config`
+pub struct ConfigV {
+    pub ip: std::net::IpAddr, pub port: u16, pub dir: Seq<char>, pub rdir: Seq<char>, pub sdir: Seq<char>,
+    pub single: bool, pub ro: bool, pub dup: u8, pub overwrite: bool, pub clean: bool,
+}
+
+pub enum CfgResult { Done(ConfigV), Fail, Help }
+
+pub open spec fn is_flag(a: Seq<char>, short: Seq<char>, long: Seq<char>) -> bool { a == short || a == long }
+
+/// SPECIFICATION (C17): the effect of the argument unit that starts at index i: `Some((config, next index))`, or
+/// `None` for an error (unknown flag, missing or unparsable value, non-existent directory, duplicate-packets = 255)
+pub open spec fn cfg_step(c: ConfigV, args: Seq<Seq<char>>, i: int) -> Option<(ConfigV, int)> {
+    let a = args[i];
+    let has_val = i + 1 < args.len();
+    let v = args[i + 1];
+    if is_flag(a, "-i"@, "--ip-address"@) {
+        if has_val && parse_spec::<std::net::IpAddr>(v) is Some { Some((ConfigV { ip: parse_spec::<std::net::IpAddr>(v)->Some_0, ..c }, i + 2)) } else { None }
+    } else if is_flag(a, "-p"@, "--port"@) {
+        if has_val && parse_spec::<u16>(v) is Some { Some((ConfigV { port: parse_spec::<u16>(v)->Some_0, ..c }, i + 2)) } else { None }
+    } else if is_flag(a, "-d"@, "--directory"@) {
+        if has_val && fs_exists(v) { Some((ConfigV { dir: v, ..c }, i + 2)) } else { None }
+    } else if is_flag(a, "-rd"@, "--receive-directory"@) {
+        if has_val && fs_exists(v) { Some((ConfigV { rdir: v, ..c }, i + 2)) } else { None }
+    } else if is_flag(a, "-sd"@, "--send-directory"@) {
+        if has_val && fs_exists(v) { Some((ConfigV { sdir: v, ..c }, i + 2)) } else { None }
+    } else if is_flag(a, "-s"@, "--single-port"@) {
+        Some((ConfigV { single: true, ..c }, i + 1))
+    } else if is_flag(a, "-r"@, "--read-only"@) {
+        Some((ConfigV { ro: true, ..c }, i + 1))
+    } else if a == "--duplicate-packets"@ {
+        if has_val && parse_spec::<u8>(v) is Some && parse_spec::<u8>(v)->Some_0 != 255 { Some((ConfigV { dup: parse_spec::<u8>(v)->Some_0, ..c }, i + 2)) } else { None }
+    } else if a == "--overwrite"@ {
+        Some((ConfigV { overwrite: true, ..c }, i + 1))
+    } else if a == "--keep-on-error"@ {
+        Some((ConfigV { clean: false, ..c }, i + 1))
+    } else {
+        None
+    }
+}
+
+/// receive / send directory fall back to the -d directory exactly when not given
+pub open spec fn cfg_finalize(c: ConfigV) -> ConfigV {
+    ConfigV { rdir: if c.rdir.len() == 0 { c.dir } else { c.rdir }, sdir: if c.sdir.len() == 0 { c.dir } else { c.sdir }, ..c }
+}
+
+/// SPECIFICATION (C17): server configuration = left fold of `cfg_step` over the argument units (so the last
+/// occurrence of a flag wins), then the directory fall-back; `-h` prints the help and exits
+pub open spec fn cfg_run(c: ConfigV, args: Seq<Seq<char>>, i: int) -> CfgResult
+    decreases args.len() - i
+{
+    if i < 0 || i >= args.len() { CfgResult::Done(cfg_finalize(c)) }
+    else if is_flag(args[i], "-h"@, "--help"@) { CfgResult::Help }
+    else {
+        match cfg_step(c, args, i) {
+            Some((c2, i2)) => if i2 > i { cfg_run(c2, args, i2) } else { CfgResult::Fail },
+            None => CfgResult::Fail,
+        }
+    }
+}
+
 /// distance on the wire from block number `bn` forward to `a`
 pub open spec fn wdist(a: u16, bn: u16) -> int { (a as int - bn as int) % 65536 }
 
@@ -1033,6 +1102,18 @@ pub proof fn lemma_wire_add(base: int, d: int)
     ensures wire(wire(base) + d) == wire(base + d), wire(wire(base + d) + 1) == wire(base + d + 1),
         d < 65536 ==> wdist(wire(base + d), wire(base)) == d,
 {
+    // stated through vstd's modular-arithmetic lemmas so that the proof does not depend on solver heuristics
+    vstd::arithmetic::div_mod::lemma_mod_bound(base, 65536);
+    vstd::arithmetic::div_mod::lemma_mod_bound(base + d, 65536);
+    vstd::arithmetic::div_mod::lemma_add_mod_noop_right(d, base, 65536);
+    assert(((base % 65536) + d) % 65536 == (base + d) % 65536);
+    vstd::arithmetic::div_mod::lemma_add_mod_noop_right(1, base + d, 65536);
+    assert((((base + d) % 65536) + 1) % 65536 == (base + d + 1) % 65536);
+    if d < 65536 {
+        vstd::arithmetic::div_mod::lemma_sub_mod_noop(base + d, base, 65536);
+        vstd::arithmetic::div_mod::lemma_small_mod(d as nat, 65536);
+        assert((((base + d) % 65536) - (base % 65536)) % 65536 == d);
+    }
 }
 
 /// every datagram emitted from index `from` on is allowed by `sender_ev_ok` (body hidden from the
